@@ -427,6 +427,9 @@ fn c01<X: L>(c: &mut Ctx, n: usize) {
             if (fl(&xa), fl(&xb)) != raw {
                 c.emit(&format!("operand_changed.{}.{}", op, form), ty, &[before.0.clone(), before.1.clone(), fl(&xa), fl(&xb)], Some("changed".into()));
             }
+            // the same object on both sides (the by-reference forms then receive one address twice)
+            let r = call(|| f(&xa, &xa));
+            c.emit(&format!("{}.{}", op, form), ty, &[before.0.clone(), before.0.clone()], r.map(|r| fl(&r)));
         }
     }
 }
@@ -511,17 +514,32 @@ fn c03<X: L>(c: &mut Ctx, n: usize) {
 // ---------------------------------------------------------------------------------------------- C04 / C05
 fn canon_all<X: L>(c: &mut Ctx, x: &X, p: bool, nn: bool, npn: bool) {
     let ty = X::TY;
+    // "smallest in the library's own ordering": each representative is also compared with the member of its orbit it was
+    // computed from, with the `Ord` of the type at hand
+    let mut own_order = |c: &mut Ctx, l: &X| {
+        let r = call(|| l.cmp(x));
+        c.emit("cmp", ty, &[fa(l), fa(x)], r.map(fcmp));
+    };
     if p {
         let r = call(|| x.p_canon_());
-        c.emit("p_canon", ty, &[fa(x)], r.map(|(l, perm)| format!("{}|{}", fl(&l), fu8s(&perm))));
+        c.emit("p_canon", ty, &[fa(x)], r.as_ref().map(|(l, perm)| format!("{}|{}", fl(l), fu8s(perm))));
+        if let Some((l, _)) = r.as_ref() {
+            own_order(c, l);
+        }
     }
     if nn {
         let r = call(|| x.n_canon_());
-        c.emit("n_canon", ty, &[fa(x)], r.map(|(l, m)| format!("{}|{:x}", fl(&l), m)));
+        c.emit("n_canon", ty, &[fa(x)], r.as_ref().map(|(l, m)| format!("{}|{:x}", fl(l), m)));
+        if let Some((l, _)) = r.as_ref() {
+            own_order(c, l);
+        }
     }
     if npn {
         let r = call(|| x.npn_canon_());
-        c.emit("npn_canon", ty, &[fa(x)], r.map(|(l, perm, m)| format!("{}|{}|{:x}", fl(&l), fu8s(&perm), m)));
+        c.emit("npn_canon", ty, &[fa(x)], r.as_ref().map(|(l, perm, m)| format!("{}|{}|{:x}", fl(l), fu8s(perm), m)));
+        if let Some((l, _, _)) = r.as_ref() {
+            own_order(c, l);
+        }
     }
 }
 
@@ -990,6 +1008,30 @@ fn c08<X: L>(c: &mut Ctx, n: usize) {
         &[n.to_string(), k.to_string()],
         r.map(|(items, ex)| format!("{}|{}|{}", items.len(), fb(ex), if items.is_empty() { "".to_string() } else { items.join(";") })),
     );
+    // what is left of a run, through the consumers built on `fold` / `count` / `last`, after k calls of `next`
+    if n <= 3 {
+        let total = 1usize << (1 << n);
+        let mut ks = vec![0usize, 1, total - 1, total, total];
+        ks.push(c.rng.below(total + 1));
+        for (i, k) in ks.into_iter().enumerate() {
+            let r = call(|| {
+                let mut it = X::all_functions_(n);
+                for _ in 0..k {
+                    it.next();
+                }
+                if i == 4 {
+                    // one more call past the end first
+                    it.next();
+                }
+                match i % 3 {
+                    0 => format!("count:{}", it.count()),
+                    1 => format!("fold:{}", it.fold(0usize, |acc, _| acc + 1)),
+                    _ => format!("last:{}", match it.last() { Some(l) => fl(&l), None => "none".to_string() }),
+                }
+            });
+            c.emit("all_functions_rest", ty, &[n.to_string(), fx(k), (i % 3).to_string()], r);
+        }
+    }
     // the iterator through `nth` (what `skip` and `step_by` call): jumps from a position that is not the start, some of
     // them across the end of the run
     if n <= 4 {
@@ -1777,7 +1819,31 @@ fn c02<X: L>(c: &mut Ctx, n: usize) {
                 c.emit("eq", "D", &[fl(&a), fl(&b)], r.map(fb));
                 let r = call(|| hash_of(&a) == hash_of(&b));
                 c.emit("hash_eq", "D", &[fl(&a), fl(&b)], r.map(fb));
+                // Clone::clone_from into a value of another size, directly and through Vec::clone_from
+                let r = call(|| {
+                    let mut d = b.clone();
+                    d.clone_from(&a);
+                    d
+                });
+                c.emit("clone_from", "D", &[fl(&b), fl(&a)], r.map(|l| fl(&l)));
+                let r = call(|| {
+                    let mut d = vec![b.clone(), a.clone()];
+                    d.clone_from(&vec![a.clone(), b.clone()]);
+                    d.swap_remove(0)
+                });
+                c.emit("clone_from.vec", "D", &[fl(&b), fl(&a)], r.map(|l| fl(&l)));
             }
+        }
+        {
+            // and between values of the same size, on both types
+            let a = pool[c.rng.below(pool.len())].clone();
+            let b = pool[c.rng.below(pool.len())].clone();
+            let r = call(|| {
+                let mut d = b.clone();
+                d.clone_from(&a);
+                d
+            });
+            c.emit("clone_from", ty, &[fl(&b), fl(&a)], r.map(|l| fl(&l)));
         }
         for (p, q) in probes {
             c.emit("eq", ty, &[fl(&p), fl(&q)], Some(fb(p == q)));
